@@ -462,7 +462,7 @@ func TestProp(t *testing.T) {
 		"random: headers assembled from signature fragments, arbitrary strings of length 0..64, perturbed/truncated/extended canonical headers, overlays of two headers. " +
 		"non-trivial = the header matches >= 2 table signatures, or the perturbation changed the classification; distinct by stream bytes")
 	rec.Assume("signature table written from the format specifications; JPEG-2000 signature box => image/jpeg because TestScanImageType pins it")
-	rec.Assume("ScanBuf is only given bufio.Readers of size >= 24 (Scan re-wraps smaller ones itself)")
+	rec.Assume("ScanBuf and the non-consumption clause are exercised with bufio.Readers of size >= 24: a smaller reader cannot look 24 bytes ahead, so ScanBuf reports bufio.ErrBufferFull and Scan has to re-wrap it (and thereby consumes what it read)")
 	pbt.Register(chk)
 	pbt.RegressDir(t, rec)
 
